@@ -155,7 +155,10 @@ Http::One::TeChunkedParser::parseChunkExtensions(Tokenizer &callerTok)
             return; // reached the end of extensions (if any)
 
         parseOneChunkExtension(tok);
-        buf_ = tok.remaining(); // got one extension
+        // No buf_ checkpoint here: parseChunkMetadataSuffix() restarts from
+        // its own checkpoint on insufficient input. Committing in the middle
+        // of "[chunk-ext] CRLF" made the retry begin with ParseStrictBws() and
+        // accept whitespace after the last extension that is otherwise fatal.
         callerTok = tok;
     } while (true);
 }
